@@ -265,6 +265,27 @@ def _has_quantifier(t):
     return False
 
 
+def _alpha_eq(a, b):
+    """structural equality of two terms up to the names of bound variables (z3 bodies use de Bruijn indices)"""
+    if z3.is_quantifier(a) or z3.is_quantifier(b):
+        if not (z3.is_quantifier(a) and z3.is_quantifier(b)):
+            return False
+        if a.is_forall() != b.is_forall() or a.is_lambda() != b.is_lambda() or a.num_vars() != b.num_vars():
+            return False
+        if any(a.var_sort(k) != b.var_sort(k) for k in range(a.num_vars())):
+            return False
+        return _alpha_eq(a.body(), b.body())
+    if z3.is_var(a) or z3.is_var(b):
+        return z3.is_var(a) and z3.is_var(b) and z3.get_var_index(a) == z3.get_var_index(b) and a.sort() == b.sort()
+    if not (z3.is_app(a) and z3.is_app(b)):
+        return False
+    if a.num_args() != b.num_args() or not z3.eq(a.decl(), b.decl()):
+        return False
+    if a.num_args() == 0:
+        return z3.eq(a, b)
+    return all(_alpha_eq(x, y) for x, y in zip(a.children(), b.children()))
+
+
 def _symbols(t, cache):
     """names of the uninterpreted symbols of a term"""
     k = t.get_id()
@@ -336,6 +357,14 @@ def _solve(i):
         return i, res, solver, time.time() - t0, model, why
     if any(z3.eq(ob.goal, h) for h in ob.hyps):
         return i, "PROVED", "syntactic (goal is a hypothesis)", time.time() - t0, model, reason
+    try:
+        # the same after simplification (select-over-store, double negation ..) and up to the names of bound variables: a callee's
+        # postcondition restated as the caller's own is proved here, without waking up the string solver
+        gs = z3.simplify(ob.goal)
+        if any(_alpha_eq(gs, z3.simplify(h)) for h in ob.hyps if z3.is_expr(h)):
+            return i, "PROVED", "syntactic (goal is a hypothesis up to simplification and bound names)", time.time() - t0, model, reason
+    except z3.Z3Exception:
+        pass
     neg = z3.Not(ob.goal)
     short = min(timeout_s, 4)
     nh0 = getattr(ob, "n_hints", 0)
